@@ -1,5 +1,6 @@
 (** Evaluator glue for C15. *)
 From AGH Require Import Base.Run Model.RuleListParser.
+From AGH Require Export Model.Refresh.
 Local Open Scope N_scope.
 
 (** Input texts are given in pieces so that 64 KiB lines stay small on paper. *)
@@ -13,14 +14,59 @@ Definition err_code (e : option perr) : Z :=
   | None => 0 | Some EHtml => 1 | Some EBinary => 2 | Some ETooLong => 3 | Some ERead => 4
   end%Z.
 
+(** One refresh: which arrays, forced?, the lists that are due, what each
+    list's source delivers; observed afterwards: per list the stored file,
+    rule count and checksum, and the verdicts of the probe names. *)
+Inductive rstep :=
+  | RStep (block allow force : bool) (due : list N) (ocs : list (N * outcome))
+          (obs_lists : list (N * option bytes * N * N)) (obs_verdicts : list N).
+
 Inductive case :=
   (* text, reader ends in an error; observed: error class, title, rule count,
      bytes written, checksum, bytes written to dst *)
   | CParse (x : list piece) (read_err : bool) (obs_err : Z) (obs_title : bytes)
-           (obs_count obs_written obs_sum : N) (obs_out : list piece).
+           (obs_count obs_written obs_sum : N) (obs_out : list piece)
+  (* block lists and allow lists (id, enabled), probe names, refresh history *)
+  | CRefresh (bl al : list (N * bool)) (probes : list bytes) (steps : list rstep).
+
+Definition mk_list (p : N * bool) : flist :=
+  {| f_id := fst p; f_enabled := snd p; f_count := 0; f_sum := 0 |}.
+
+Definition oc_of (ocs : list (N * outcome)) (i : N) : outcome :=
+  match find (fun e => fst e =? i) ocs with Some e => snd e | None => OOpenErr end.
+
+Definition run_step (s : rstep) (st : rstate) : rstate :=
+  match s with
+  | RStep b a f due ocs _ _ =>
+      refresh crc32_update b a f (fun i => existsb (N.eqb i) due) (oc_of ocs) st
+  end.
+
+Definition list_agrees (st : rstate) (o : N * option bytes * N * N) : bool :=
+  let '(i, file, cnt, sum) := o in
+  match find (fun l => f_id l =? i) (r_block st ++ r_allow st) with
+  | Some l => (f_count l =? cnt) && (f_sum l =? sum) && eqb_option eqb_bytes (fget i (r_files st)) file
+  | None => false
+  end.
+
+Definition step_agrees (probes : list bytes) (s : rstep) (st : rstate) : bool :=
+  match s with
+  | RStep _ _ _ _ _ ol ov =>
+      forallb (list_agrees st) ol && eqb_list N.eqb (map (verdict (r_engine st)) probes) ov
+  end.
+
+Fixpoint run_steps (probes : list bytes) (ss : list rstep) (st : rstate) : bool :=
+  match ss with
+  | [] => true
+  | s :: r => let st' := run_step s st in step_agrees probes s st' && run_steps probes r st'
+  end.
+
+Definition init_state (bl al : list (N * bool)) : rstate :=
+  {| r_block := map mk_list bl; r_allow := map mk_list al; r_files := [];
+     r_engine := {| e_block := []; e_allow := [] |} |}.
 
 Definition case_ok (c : case) : bool :=
   match c with
+  | CRefresh bl al probes steps => run_steps probes steps (init_state bl al)
   | CParse x re e ti cnt wr sum out =>
       let '(st, err) := parse crc32_update (expand x) re in
       (err_code err =? e)%Z && eqb_bytes (p_title st) ti && (p_count st =? cnt) &&
@@ -29,9 +75,19 @@ Definition case_ok (c : case) : bool :=
 
 Definition mismatches := Base.Run.mismatches case_ok.
 
+Fixpoint explain_steps (probes : list bytes) (ss : list rstep) (st : rstate) :=
+  match ss with
+  | [] => []
+  | s :: r =>
+      let st' := run_step s st in
+      (map (fun l => (f_id l, f_count l, f_sum l, fget (f_id l) (r_files st'))) (r_block st' ++ r_allow st'),
+       map (verdict (r_engine st')) probes) :: explain_steps probes r st'
+  end.
+
 Definition explain (c : case) :=
   match c with
+  | CRefresh bl al probes steps => inr (explain_steps probes steps (init_state bl al))
   | CParse x re _ _ _ _ _ _ =>
       let '(st, err) := parse crc32_update (expand x) re in
-      (err_code err, p_title st, p_count st, p_written st, p_sum st, lenN (output st))
+      inl (err_code err, p_title st, p_count st, p_written st, p_sum st, lenN (output st))
   end.
